@@ -214,7 +214,7 @@ def canon_atom(a):
 
 
 def canon_run(r):
-    if r == "crash":
+    if isinstance(r, str):     # "crash" or "error: ..."
         return r
     return {u: (tuple(sorted((k, canon_atom(v)) for k, v in o.items())), tuple(sorted(ex))) for u, (o, ex) in r.items()}
 
@@ -233,8 +233,8 @@ def classify(prog, got):
 
 
 def describe_diff(want, got):
-    if want == "crash" or got == "crash":
-        return f"documented: {'crash' if want == 'crash' else 'runs'}, implementation: {'crash' if got == 'crash' else 'runs'}"
+    if isinstance(want, str) or isinstance(got, str):
+        return f"documented: {want if isinstance(want, str) else 'runs'}, implementation: {got if isinstance(got, str) else 'runs'}"
     for u in sorted(set(want) | set(got)):
         if want.get(u) != got.get(u):
             return f"job {u}: documented (options, exported) = {want.get(u)!r}, implementation {got.get(u)!r}"
@@ -434,7 +434,7 @@ class Real:
 
     def run(self, prog):
         """{uid: (options, exported names)} as seen by the executor, "crash" for the root-expression
-        crash; any other exception propagates."""
+        crash, "error: ..." for any other failure of the run."""
         s = self.sched()
         self.ex.seen.clear()
         expr = build_call(prog["tree"])
@@ -444,20 +444,25 @@ class Real:
             # evaluation of an option expression without a parent job (record_job_start / get_context)
             self.s = None
             if prog["wrap"]:
-                raise
-            self.crash = f"{type(e).__name__}: {e}"
+                return f"error: {type(e).__name__}: {e}"[:300]
             return "crash"
+        except Exception as e:  # noqa: BLE001  -- any other failure of the run is a result to be judged, not a harness error
+            self.s = None
+            return f"error: {type(e).__name__}: {e}"[:300]
         out = {}
         for name, args, opts, ex in self.ex.seen:
             if name == "redun.root_task":
                 continue
             uid = args[0]
             if uid in out:
-                raise AssertionError(f"job {uid} submitted twice")
+                return f"error: job {uid} submitted twice"
             unknown = [k for k in list(opts) + list(ex) if k not in KCODE]
             if unknown:
-                raise AssertionError(f"job {uid}: unexpected option names {unknown}")
-            out[uid] = ({k: to_atom(v) for k, v in opts.items()}, ex)
+                return f"error: job {uid}: unexpected option names {unknown}"
+            try:
+                out[uid] = ({k: to_atom(v) for k, v in opts.items()}, ex)
+            except TypeError as e:      # an option value the job runs with is not an evaluated atom
+                return f"error: job {uid}: {e}"[:300]
         return out
 
 
@@ -473,6 +478,8 @@ def real_chain(n):
 def cq_run_result(got) -> str:
     if got == "crash":
         return "(Err ERootExpr)"
+    if isinstance(got, str):   # the run failed in a way the model does not know: never matches
+        return "(Err ENoSuchJob)"
     return "(Ok " + cq_list([cq_obs((u, o, ex)) for u, (o, ex) in sorted(got.items())]) + ")"
 
 
@@ -602,11 +609,11 @@ class Check(PropertyCheck):
                              f"{cq_tree(prog['tree'])}) {cq_run_result(got)}")
                 descr.append(("tree", json.dumps(prog)))
                 sz = tree_size(prog["tree"])
-                nontrivial = got != "crash" and sz >= 2 and any(ex for _, ex in got.values())
+                nontrivial = not isinstance(got, str) and sz >= 2 and any(ex for _, ex in got.values())
                 self.count(("t", json.dumps(prog)) if nontrivial else None)
                 self.stat("tree_jobs", sz)
-                self.stat("tree_result", "crash" if got == "crash" else "ran")
-                if got != "crash":
+                self.stat("tree_result", got.split(":")[0] if isinstance(got, str) else "ran")
+                if not isinstance(got, str):
                     self.stat("observed_jobs", "total", len(got))
                     self.sample({"op": "job_tree", "jobs": len(got), "nocache": prog["nocache"], "wrap": prog["wrap"],
                                  "observed": json.dumps({u: [o, sorted(e)] for u, (o, e) in got.items()})[:300]}, 5)
